@@ -21,7 +21,7 @@ PROPS = {
         "assumptions": ["semantics are invariant under order-preserving relabelling of qubits (Lean sees compact ids)"],
     },
     "C12": {
-        "lean_modules": ["StimModel.Props.C12", "StimModel.Props.C12b", "StimModel.Props.C12c", "StimModel.Core.Pauli", "StimModel.Core.Local", "StimModel.Core.Two",
+        "lean_modules": ["StimModel.Props.C12", "StimModel.Props.C12b", "StimModel.Props.C12c", "StimModel.Props.C12d", "StimModel.Core.Pauli", "StimModel.Core.Local", "StimModel.Core.Two",
                          "StimModel.Generated.GateThms", "StimModel.Generated.PauliRefThms"],
         "areas": [
             {"area": "gatetab", "n": 1, "extra": ["PauliRef"]},
